@@ -208,6 +208,7 @@ void backend () {
   struct timeval timeout;
   int nb;
   int i;
+  volatile int initial_tick_done = 0;
   error_context_t econ;
 
   opt_info (1, "Entering backend loop.");
@@ -256,10 +257,16 @@ void backend () {
   /* do initial timer tick (initialize current_time and allow LPC code to access time).
    * This is always done even if no timer is started, so that current_time is valid.
    */
-  call_heart_beat ();
-
+  /* The error context must be armed first: an error in a heart_beat(), reset() or call_out() of this
+   * very first tick (objects preloaded by the master) would otherwise longjmp() into an unset jmp_buf. */
   if (setjmp (econ.context))
     restore_context (&econ);
+
+  if (!initial_tick_done)
+    {
+      initial_tick_done = 1;
+      call_heart_beat ();
+    }
 
   if (MAIN_OPTION(console_mode))
     init_console_user(0);
